@@ -527,6 +527,46 @@ func rSortComparator(id string) func(w *World, r *Report) {
 		n := 0
 		for _, c := range allCalls(fn) {
 			cn := calleeName(c)
+			if cb := calleeBase(c); cb == "slices.SortFunc" || cb == "slices.SortStableFunc" {
+				// three-way comparator: exactly Compare(a.Name, b.Name)
+				n++
+				mc, ok := c.Common().Args[1].(*ssa.MakeClosure)
+				var cf *ssa.Function
+				if ok {
+					cf, _ = mc.Fn.(*ssa.Function)
+				} else {
+					cf, _ = c.Common().Args[1].(*ssa.Function)
+				}
+				good := cf != nil && len(cf.Blocks) == 1
+				ncmp := 0
+				if cf != nil {
+					eachInstr(cf, func(in ssa.Instruction) {
+						switch x := in.(type) {
+						case *ssa.Call:
+							b := calleeBase(x)
+							_, n1 := loadOfFieldNamed(x.Call.Args[0], "Name")
+							n2 := false
+							if len(x.Call.Args) > 1 {
+								_, n2 = loadOfFieldNamed(x.Call.Args[1], "Name")
+							}
+							if (b == "cmp.Compare" || b == "strings.Compare") && n1 && n2 {
+								// a.Name against b.Name, in parameter order
+								a0, _ := loadOfFieldNamed(x.Call.Args[0], "Name")
+								a1, _ := loadOfFieldNamed(x.Call.Args[1], "Name")
+								if len(cf.Params) == 2 && a0 == ssa.Value(cf.Params[0]) && a1 == ssa.Value(cf.Params[1]) {
+									ncmp++
+									return
+								}
+							}
+							good = false
+						case *ssa.BinOp, *ssa.If:
+							good = false
+						}
+					})
+				}
+				ru.Check(good && ncmp == 1, "Sort/comparator", w.IPos(c), "Compare(a.Name, b.Name)", "option.Sort's comparator is not a plain comparison of the names (case folding, ties, extra keys): elements it treats as equal keep the order of the map range they came from")
+				continue
+			}
 			if cn != "sort.Slice" && cn != "sort.SliceStable" {
 				continue
 			}
